@@ -215,8 +215,47 @@ impl SelectorsParser {
         }
     }
 
+    /// The selector parser is recursive (`:not()` arguments are selectors themselves), so
+    /// the nesting depth of an untrusted selector needs to be capped to not exhaust the stack.
+    const MAX_NESTING_DEPTH: usize = 128;
+
+    fn exceeds_max_nesting_depth(selector: &str) -> bool {
+        let mut depth = 0usize;
+        let mut quote = None;
+        let mut escaped = false;
+
+        for &b in selector.as_bytes() {
+            if escaped {
+                escaped = false;
+                continue;
+            }
+
+            match (quote, b) {
+                (_, b'\\') => escaped = true,
+                (Some(q), _) if b == q => quote = None,
+                (Some(_), _) => (),
+                (None, b'"' | b'\'') => quote = Some(b),
+                (None, b'(') => {
+                    depth += 1;
+
+                    if depth > Self::MAX_NESTING_DEPTH {
+                        return true;
+                    }
+                }
+                (None, b')') => depth = depth.saturating_sub(1),
+                (None, _) => (),
+            }
+        }
+
+        false
+    }
+
     #[inline]
     pub fn parse(selector: &str) -> Result<SelectorList<SelectorImplDescriptor>, SelectorError> {
+        if Self::exceeds_max_nesting_depth(selector) {
+            return Err(SelectorError::UnsupportedSyntax);
+        }
+
         let mut input = ParserInput::new(selector);
         let mut css_parser = CssParser::new(&mut input);
 
